@@ -74,6 +74,10 @@ def generate(tier, seed):
         for k in ks:
             cases.append("savecrash %s %s %d" % (enc_rules(old), enc_rules(new), k))
             dist["save_limits"] += 1
+    # a stale temporary file left by an earlier interrupted save (shorter and LONGER than the new text) must not leak into the store
+    for new in news:
+        for n in (0, 5, 40, 400, 5000):
+            cases.append("savecrash %s %s stale%d" % (enc_rules(old), enc_rules(new), n))
     # faults and crashes at SYSTEM-CALL boundaries of the save (strace injection in a child process): the n-th call of
     # each kind touching the policy file or its temporary sibling fails with EIO, or the process is killed entering it
     dist["syscall_faults"] = 0
